@@ -242,6 +242,31 @@ def collide_history(rng):
     return lines
 
 
+def trigset_history(rng):
+    """many fetches WITH the trigger set over one connection (same node) for keys whose trigger sets differ (disjoint,
+    nested, empty, hundreds of names): each answer must carry exactly that entry's set on a node without L1"""
+    ncl = rng.choice((1, 2))
+    l1 = ["n"] + [rng.choice(("n", "0"))] * (ncl - 1)
+    lines = ["cfg %s %s" % (rng.choice(("0", "0,0")), ",".join(l1))]
+    keys = [b"K%d" % i + rand_name(rng, 0, 3) for i in range(rng.randrange(2, 7))]
+    now = 1000
+    for i, k in enumerate(keys):
+        n = rng.choice((0, 0, 1, 2, 5, 40, 300))
+        ts = [b"t%d_%d" % (i, j) for j in range(n)] + ([keys[0]] if rng.random() < 0.2 else [])
+        lines.append("store %d %d %s %s %s 9000" % (rng.randrange(ncl), now, k.hex(), rand_val(rng), trig_word(ts)))
+    for _ in range(rng.randrange(10, 40)):
+        r = rng.random()
+        k = rng.choice(keys)
+        if r < 0.8:
+            lines.append("fetch %d %d %s 1" % (rng.randrange(ncl), now, k.hex()))
+        elif r < 0.9:
+            lines.append("store %d %d %s %s %s 9000" % (rng.randrange(ncl), now, k.hex(), rand_val(rng),
+                                                       trig_word([b"n" + rand_name(rng) for _ in range(rng.randrange(0, 4))])))
+        else:
+            lines.append("fetch %d %d %s 0" % (rng.randrange(ncl), now, k.hex()))
+    return lines
+
+
 SCRIPT = "abcdefghijk"
 
 
@@ -602,13 +627,29 @@ def main():
             c.broke("replayed history: model and implementation differ", str(r["diffs"][0]))
         c.finish()
 
-    def report(name, hists, r, line_hist, judged):
+    def reproducer(hists, hi, k, kind, judged, lines, budget=60):
+        """a self-contained failing history: the history alone if it fails alone, else everything since the cluster
+        was created (histories sharing a cluster via `reset` also share connections and generation counters), shrunk"""
+        h = hists[hi]
+        if R.fails(h, judged) == kind:
+            return R.shrink(h, kind, judged, budget=budget)
+        if lines:
+            start = max(i for i in range(min(k, len(lines) - 1) + 1) if lines[i].startswith("cfg"))
+            end = k
+            while end + 1 < len(lines) and not lines[end + 1].startswith(("cfg", "reset")):
+                end += 1
+            epoch = lines[start:end + 1]
+            if R.fails(epoch, judged) == kind:
+                return R.shrink(epoch, kind, judged, budget=max(budget, 120))
+            return epoch
+        return h
+
+    def report(name, hists, r, line_hist, judged, lines=None):
         """turn the result of one stream into violations / broken ties"""
         if r["crashed"]:
             k = len(r["out_i"])
             hi = line_hist[min(k, len(line_hist) - 1)]
-            h = hists[hi]
-            small = R.shrink(h, "crash", judged, budget=30) if R.fails(h, judged) == "crash" else h
+            small = reproducer(hists, hi, k, "crash", judged, lines, budget=30)
             c.violation("sanitizer abort / crash of the real code (stream %s)" % name,
                         {"history": small, "stream": name, "stderr": r["crashed"]["stderr"], "judged": judged})
             return
@@ -618,8 +659,7 @@ def main():
             if hi in seen:
                 continue
             seen.add(hi)
-            h = hists[hi]
-            small = R.shrink(h, "judge", True) if R.fails(h, True) == "judge" else h
+            small = reproducer(hists, hi, k, "judge", True, lines)
             rr = R.run(small, judge=True, count=False)
             if rr["jbad"]:
                 verdict = rr["jbad"][0][1]
@@ -629,8 +669,7 @@ def main():
         if r["diffs"] and not r["jbad"]:
             k, cs, a, b = r["diffs"][0]
             hi = line_hist[k]
-            h = hists[hi]
-            small = R.shrink(h, "diff", judged) if R.fails(h, judged) == "diff" else h
+            small = reproducer(hists, hi, k, "diff", judged, lines)
             rr = R.run(small, judge=False, count=False)
             c.broke("correspondence stream " + name,
                     "%d differing lines; first: %s impl=%s model=%s; shrunk history: %s; impl=%s model=%s" %
@@ -656,7 +695,7 @@ def main():
             idx = [i for i in (1, 2, len(lines) // 3, len(lines) // 2, len(lines) - 1) if 0 <= i < len(lines)]
             c.samples += [{"stream": name, "case": lines[i][:300], "impl": (r["out_i"][i] if i < len(r["out_i"]) else None),
                            "model": (r["out_m"][i] if i < len(r["out_m"]) else None)} for i in idx][:4]
-        report(name, hists, r, line_hist, judged)
+        report(name, hists, r, line_hist, judged, lines)
         return lines, r
 
     # ---- corpus: regression histories and the witnesses of the known findings
@@ -714,6 +753,8 @@ def main():
     ns = [1, 2, 127, 128, 255, 256, 257, 511, 512, 513, 1024, 4096] + ([65535, 65536, 65537] if thorough else [])
     hs = [churn_history(rng, n) for n in ns for _ in range(3 if thorough else 1)]
     run_stream("churn", hs, True)
+    hs = [trigset_history(rng) for i in range(300 if thorough else 25)]
+    run_stream("trigsets", hs, True)
     # binary keys built to collide in mem_cache's hash map (same length, equal up to the first NUL, same bucket)
     hs = [collide_history(rng) for i in range(400 if thorough else 40)]
     run_stream("collide", hs, True)
